@@ -19,6 +19,7 @@ import (
 	"context"
 	"math/rand/v2"
 	"sync"
+	"sync/atomic"
 	"time"
 
 	v1prio "github.com/akramarenkov/cqos/priority"
@@ -28,12 +29,13 @@ import (
 )
 
 type bareResult struct {
-	Rejected   bool
-	Terminated bool
-	Stuck      string
-	MapWrites  int
-	CtlCalls   int
-	EarlyStop  bool
+	Rejected       bool
+	Terminated     bool
+	Stuck          string
+	MapWrites      int
+	CtlCalls       int
+	EarlyStop      bool
+	TwoControllers bool
 }
 
 // runPrioBare plays a PrioRealScenario without any instrumentation. It decides nothing itself.
@@ -225,15 +227,33 @@ func runPrioBare(sc PrioRealScenario) bareResult {
 		go produce(in.ch, in.p, i, in.n, sc.Inputs[i].GapUs, sc.Seed+uint64(100+i), q)
 	}
 
-	var ctlCalls int
-	cwg.Add(1)
-	go func() {
+	// control calls: from one goroutine, or (every second scenario) from two goroutines at the
+	// same time, each owning the priorities of one parity; Stop / cancel / GracefulStop come
+	// after both are through (AddInput / RemoveInput must not be called on a stopped discipline)
+	var ctlCalls [2]int
+	var nextID atomic.Int64
+	nextID.Store(int64(len(ins)))
+	two := sc.Seed%2 == 0
+	part := func(c PRealCtl) int {
+		if two && (c.Op == "add" || c.Op == "repl" || c.Op == "rm") {
+			return int(c.P % 2)
+		}
+		return 0
+	}
+	var bwg sync.WaitGroup
+	control := func(me int, own map[uint]chan struct{}) {
 		defer cwg.Done()
+		if me == 1 {
+			defer bwg.Done()
+		}
 		stopped := false
-		next := len(ins)
+		waited := false
 		for i, c := range sc.Ctl {
 			if i == first {
 				stopped = true
+				continue
+			}
+			if part(c) != me {
 				continue
 			}
 			time.Sleep(time.Duration(c.AfterUs) * time.Microsecond)
@@ -244,49 +264,71 @@ func runPrioBare(sc PrioRealScenario) bareResult {
 				}
 				ch := make(chan PItem, c.Cap)
 				addInput(ch, c.P)
-				if q := quits[c.P]; q != nil {
+				if q := own[c.P]; q != nil {
 					close(q)
 				}
 				q := make(chan struct{})
-				quits[c.P] = q
+				own[c.P] = q
+				id := int(nextID.Add(1) - 1)
 				pwg.Add(1)
-				go produce(ch, c.P, next, c.N, 50, sc.Seed+uint64(200+next), q)
-				next++
-				ctlCalls++
+				go produce(ch, c.P, id, c.N, 50, sc.Seed+uint64(200+id), q)
+				ctlCalls[me]++
 			case "rm":
-				if removeInput == nil || stopped || quits[c.P] == nil {
+				if removeInput == nil || stopped || own[c.P] == nil {
 					continue
 				}
 				removeInput(c.P)
-				close(quits[c.P])
-				delete(quits, c.P)
-				ctlCalls++
-			case "graceful":
-				if graceful != nil {
-					go graceful()
-					ctlCalls++
+				close(own[c.P])
+				delete(own, c.P)
+				ctlCalls[me]++
+			default:
+				if two && !waited {
+					bwg.Wait()
+					waited = true
 				}
-			case "stop":
-				if stop != nil {
-					stopped = true
-					stop()
-					ctlCalls++
-				}
-			case "cancel":
-				if cancel != nil {
-					stopped = true
-					cancel()
-					ctlCalls++
+				switch c.Op {
+				case "graceful":
+					if graceful != nil {
+						go graceful()
+						ctlCalls[me]++
+					}
+				case "stop":
+					if stop != nil {
+						stopped = true
+						stop()
+						ctlCalls[me]++
+					}
+				case "cancel":
+					if cancel != nil {
+						stopped = true
+						cancel()
+						ctlCalls[me]++
+					}
 				}
 			}
 		}
-	}()
+	}
+	ownA, ownB := map[uint]chan struct{}{}, map[uint]chan struct{}{}
+	for p, q := range quits {
+		if two && p%2 == 1 {
+			ownB[p] = q
+		} else {
+			ownA[p] = q
+		}
+	}
+	cwg.Add(1)
+	if two {
+		cwg.Add(1)
+		bwg.Add(1)
+		go control(1, ownB)
+	}
+	go control(0, ownA)
 
 	// v1: once every producer is through, ask for graceful termination (unless a rough stop is scripted)
 	if graceful != nil && !roughStop {
 		go func() {
 			pw := make(chan struct{})
-			go func() { cwg.Wait(); pwg.Wait(); close(pw) }() // producers are only added by the control goroutine
+			go func() { cwg.Wait(); pwg.Wait(); close(pw) }() // producers are only added by the control goroutines
 			select {
 			case <-pw:
 				graceful()
@@ -323,7 +365,8 @@ wait:
 	select {
 	case <-hw:
 		res.MapWrites = mapWrites
-		res.CtlCalls += ctlCalls
+		res.CtlCalls += ctlCalls[0] + ctlCalls[1]
+		res.TwoControllers = two && addInput != nil
 	case <-time.After(20 * time.Second):
 		res.Stuck = "goroutines of the harness did not end after termination"
 	}
